@@ -11,6 +11,8 @@ NATIVE_NOTE = (" The layers of this check that need no synctest bubble (real gor
 DAEMON_NOTE = (" One layer (mode=daemon) drives the dirk binary itself, built from the tree under test and started as a daemon process on a generated base directory "
                "(configuration file, certificates, wallets in a filesystem store), over real gRPC/TLS: what main.go makes of the configuration is part of what is judged; the process is killed at "
                "storage points or between requests, stopped and started again where the layer calls for it.")
+REALNET_NOTE = (" One layer (mode=realnet) connects 2-5 real instances through Dirk's own sender (services/sender/grpc) and their real gRPC edges instead of the simulated transport; "
+                "it is unscheduled, and its only faults are single failing calls of a receiving instance's process service.")
 props = [json.loads(l)["id"] for l in open(os.path.join(VERIF, "properties.jsonl"))]
 hooks = subprocess.run(["git", "-C", "/repo", "log", "--format=%H %s", "c5f96c0..HEAD"], capture_output=True, text=True).stdout.strip().splitlines()
 hook_commits = [h.split()[0] for h in hooks if not h.split(" ", 1)[1].startswith("fix:")]
@@ -28,7 +30,9 @@ for p in props:
         "engine": "dirk-dsim",
         "level_claimed": {"category": PLANS[p]["level"], "text": t["level_text"], "design_ref": t.get("design_ref", "DESIGN.md section 7, " + p)},
         "level_note": t["level_note"] + (NATIVE_NOTE if any("native=1" in l.get("params", "") for l in PLANS[p]["quick"].get("layers", [])) else "")
-                      + (DAEMON_NOTE if any("mode=daemon" in l.get("params", "") for l in PLANS[p]["quick"].get("layers", [])) else ""),
+                      + (DAEMON_NOTE if any("mode=daemon" in l.get("params", "") for l in PLANS[p]["quick"].get("layers", [])) else "")
+                      + (REALNET_NOTE if any("mode=realnet" in l.get("params", "") for l in PLANS[p]["quick"].get("layers", [])) else "")
+                      + " Every run draws the log level of the services it creates (off, trace ... error).",
         "technique": t["technique"],
     })
 claimed = {c["property_id"] for c in checks}
@@ -44,7 +48,7 @@ m = {
         "add_only": True,
     },
     "engines": [{"name": "dirk-dsim", "path": "/verif/sim", "serves_properties": sorted(claimed),
-                 "kind_free_text": "deterministic simulation with fault injection: real dirk services in one process under a seeded one-thread-at-a-time scheduler (testing/synctest quiescence + fake clock, enabledness from TryLock on the real mutexes), simulated DKG transport, crash/restart on directory images, reference-model and porcupine oracles; free-running (unscheduled, workload-seeded) layers for locks without hooks and true-parallelism failures; real gRPC/TLS edge tables; the dirk binary as a daemon process (main.go, configuration file) driven over gRPC/TLS; process-level kill, power-loss and full-disk layers; bubble-free layers also hosted by a build with the repository's own toolchain; bin/check drives 16+ worker processes, minimises and re-replays violations"}],
+                 "kind_free_text": "deterministic simulation with fault injection: real dirk services in one process under a seeded one-thread-at-a-time scheduler (testing/synctest quiescence + fake clock, enabledness from TryLock on the real mutexes), simulated DKG transport (and, in one layer, Dirk's own sender between real gRPC edges), crash/restart on directory images, reference-model and porcupine oracles; free-running (unscheduled, workload-seeded) layers for locks without hooks and true-parallelism failures; real gRPC/TLS edge tables; the dirk binary as a daemon process (main.go, configuration file) driven over gRPC/TLS; process-level kill, power-loss and full-disk layers; bubble-free layers also hosted by a build with the repository's own toolchain; bin/check drives 16+ worker processes, minimises and re-replays violations"}],
     "checks": checks,
     "notes": "rules/standard TestRules/PathDisallowed expects a permission error opening a store at '/', so it fails whenever the suite runs as root (also on the pristine commit); it is unrelated to the hooks. Replay files are written under /verif/replays/. See DESIGN.md.",
     "not_applicable": na,
